@@ -290,8 +290,11 @@ impl AggregateUDFImpl for BitwiseOperation {
         }
     }
 
-    fn groups_accumulator_supported(&self, _args: AccumulatorArgs) -> bool {
-        true
+    fn groups_accumulator_supported(&self, args: AccumulatorArgs) -> bool {
+        // The groups accumulator does not de-duplicate its input, so
+        // `bit_xor(DISTINCT ..)` must use the distinct row accumulator
+        // (`bit_and` / `bit_or` are idempotent: DISTINCT is a no-op there).
+        !(args.is_distinct && self.operation == BitwiseOperationType::Xor)
     }
 
     fn create_groups_accumulator(
